@@ -906,7 +906,7 @@ class Executor(object):
                         self.heap_get(st1, v, "n") == 0:
                     v = Obj(list, "%s.%s" % (o.name, target.attr), "vlist", allocated=True)   # `[]` stored in a list-of-values field
                     st1.heap[(v.oid, "items")] = SVL(VL.nil)
-                if self.field_sort(o, target.attr) in ("dict", "dict:slot") and isinstance(v, dict) and not v:
+                if self.field_sort(o, target.attr) in ("dict", "dict:slot") and isinstance(v, dict):
                     v = self.lib.lift_dict(self, st1, v, "%s.%s" % (o.name, target.attr))
                 st1.heap[(o.oid, target.attr)] = v
                 res.append((st1, None))
